@@ -1,10 +1,29 @@
 """C14 — declared exports (operation declaration file) match what the loader's JS module exports."""
+import shutil
+
 import vlib
 
 
 def classify(case, kind):
-    # no behaviour of the current tree violates C14; nothing is excused
-    return set()
+    """Known-finding classes of a failing case.  Narrow: a case belongs to `colliding-variable-names`
+    only if the loader's module really declares one name twice AND everything else the property asks
+    holds on the implementation's outputs (names declared by the declaration file are exported by the JS
+    module, same default) -- so a different violation on a document that also has a collision is still
+    reported as a VIOLATION."""
+    cls = set()
+    ol = case.get("op_level") or {}
+    if kind == "prop" and ol.get("js_duplicate_bindings"):
+        rest_ok = set(ol.get("dts_named", [])) <= set(ol.get("js_named", [])) and ol.get("dts_default") == ol.get("js_default")
+        cli = case.get("cli_dts_exports_from_text")
+        if cli is not None:
+            js = case.get("js_exports_from_text") or {}
+            rest_ok = rest_ok and set(cli.get("named", [])) <= set(js.get("named", [])) and cli.get("default") == js.get("default")
+        node = case.get("node")
+        if node is not None and node.get("loaded"):
+            rest_ok = False   # a module with a duplicate declaration that loads: not this class
+        if rest_ok:
+            cls.add("colliding-variable-names")
+    return cls
 
 
 def run(ctx):
@@ -12,6 +31,11 @@ def run(ctx):
     # `nitrogql-cli generate` (cli/src/generate.rs, load_config, file indices as the CLI assigns them)
     ok, cli = vlib.cli_build(ctx)
     extra = ["--cli", cli] if ok else []
+    node = shutil.which("node")
+    if node:
+        extra += ["--node", node]
+    else:
+        ctx.notes.append("node not found: the runtime oracle (really importing the loader's modules) was skipped")
     if not ok:
         vlib.violation(ctx, "nitrogql-cli does not build from the working tree; end-to-end cases not run",
                        {"stage": "cli-build"}, found_input=False)
